@@ -771,6 +771,10 @@ def flag_worker(job):
             attempt("bad-spec", lambda: to_onnx(_flag_fn_ok, [("B", "x y")], enable_double_precision=dp), prev, dp)
             attempt("keyboard-interrupt", lambda: to_onnx(lambda x: (_ for _ in ()).throw(KeyboardInterrupt()),
                                                          [(2,)], enable_double_precision=dp), prev, dp)
+            attempt("system-exit", lambda: to_onnx(lambda x: (_ for _ in ()).throw(SystemExit(3)),
+                                                    [(2,)], enable_double_precision=dp), prev, dp)
+            attempt("generator-exit", lambda: to_onnx(lambda x: (_ for _ in ()).throw(GeneratorExit()),
+                                                       [(2,)], enable_double_precision=dp), prev, dp)
             for ident in reg_idents:
                 try:
                     key, fn, spec, kw, _v, _tp = _case("reg", ident, dp)
@@ -822,6 +826,157 @@ def flag_worker(job):
                                                 "inside": seen_in, "after": getf(), "raised": raised})
                         setf(False)
     return obs
+
+
+# ---- (f) every accepted FORM of an input spec x dtype x flag x ambient x64, on programs whose constants are not float32 values
+FORM_PROGRAMS = ("affine", "pi", "fori_body", "cond_branches", "scan_body", "while_body", "function_body")
+_FORMS_INNER = None
+
+
+def _forms_program(name):
+    import numpy as np
+    import jax
+    import jax.numpy as jnp
+    from jax import lax
+    global _FORMS_INNER
+    if name == "affine":
+        return lambda x: jnp.tanh(x * 0.1 + 1.0 / 3.0) / 0.7 - 1e-3 * x
+    if name == "pi":
+        return lambda x: jnp.sin(x * np.pi) + 0.7
+    if name == "fori_body":
+        return lambda x: lax.fori_loop(0, 3, lambda i, c: c * 0.9 + 0.1, x)
+    if name == "cond_branches":
+        return lambda x: lax.cond(jnp.sum(x) > 0.3, lambda a: a * 0.1 + 1e-3, lambda a: a / 0.7 - 1.0 / 3.0, x)
+    if name == "scan_body":
+        return lambda x: lax.scan(lambda c, _: (c * 0.7 + 1.0 / 3.0, c * 1e-3), x, None, length=3)
+    if name == "while_body":
+        return lambda x: lax.while_loop(lambda s: s[1] < 3, lambda s: (s[0] * 0.9 + 0.1, s[1] + 1), (x, 0))[0]
+    if name == "function_body":
+        if _FORMS_INNER is None:
+            from jax2onnx import onnx_function
+
+            def c09_forms_inner(x):
+                return x * 0.1 + 1.0 / 3.0
+            c09_forms_inner.__module__ = __name__
+            globals()["c09_forms_inner"] = c09_forms_inner
+            _FORMS_INNER = onnx_function(c09_forms_inner)
+            globals()["c09_forms_inner"] = _FORMS_INNER
+        inner = _FORMS_INNER
+        return lambda x: jnp.tanh(inner(x)) / 0.7
+    raise KeyError(name)
+
+
+def _forms_specs():
+    """(form name, dtype name or None, thunk building the spec)"""
+    import types
+    import numpy as np
+    import jax
+    import jax.numpy as jnp
+    shape = (2, 3)
+    out = [("shape-tuple", None, lambda: tuple(shape)), ("shape-list", None, lambda: list(shape)),
+           ("shape-tuple-numpy-ints", None, lambda: tuple(np.int64(d) for d in shape))]
+
+    def jax_array(dt):
+        prev = bool(jax.config.jax_enable_x64)
+        jax.config.update("jax_enable_x64", True)
+        try:
+            return jnp.zeros(shape, dtype=dt)
+        finally:
+            jax.config.update("jax_enable_x64", prev)
+    for dn in ("float32", "float64"):
+        dt = np.dtype(dn)
+        out += [
+            ("ShapeDtypeStruct", dn, lambda dt=dt: jax.ShapeDtypeStruct(shape, dt)),
+            ("ShapedArray", dn, lambda dt=dt: jax.core.ShapedArray(shape, dt)),
+            ("numpy-array", dn, lambda dt=dt: np.zeros(shape, dtype=dt)),
+            ("jax-array", dn, lambda dt=dt: jax_array(dt)),
+            ("duck(.shape,.dtype=np.dtype)", dn, lambda dt=dt: types.SimpleNamespace(shape=shape, dtype=dt)),
+            ("duck(.shape,.dtype=scalar type)", dn, lambda dt=dt: types.SimpleNamespace(shape=shape, dtype=dt.type)),
+        ]
+    return out
+
+
+def forms_worker(job):
+    """job = (dp, ambient, program names, seed).  For every spec form: export under the ambient x64 setting and report
+    flag before/after, graph input/output types, DOUBLE / single-precision items, float32-rounded constants, and (dp, form
+    not asking float32) the model result against JAX x64 at double tolerance."""
+    dp, ambient, programs, seed = job
+    _preload()
+    import numpy as np
+    import jax
+    import jax.numpy as jnp
+    import onnx
+    import onnx2coq
+    from jax2onnx import to_onnx
+    TP = onnx.TensorProto
+    x = np.array([[0.123456789012345, 1.987654321098765, -0.333333333333333],
+                  [2.718281828459045, -3.141592653589793, 0.577215664901533]], dtype=np.float64)
+    x = x * (1.0 + (seed % 97) * 2.0 ** -40)
+    recs = []
+    for pname in programs:
+        fn = _forms_program(pname)
+        jax.config.update("jax_enable_x64", True)
+        try:
+            ref = [np.asarray(r) for r in jax.tree_util.tree_leaves(fn(jnp.asarray(x)))]
+        finally:
+            jax.config.update("jax_enable_x64", False)
+        for form, dn, make in _forms_specs():
+            rec = {"form": form, "dtype": dn, "dp": dp, "ambient": ambient, "program": pname,
+                   "key": f"form:{form}[{dn}]:{pname}:dp={int(dp)}:x64={int(ambient)}", "kind": "form", "ident": [form, dn, pname]}
+            try:
+                spec = make()
+            except Exception as e:  # noqa
+                rec["error"] = f"spec {type(e).__name__}: {str(e)[:120]}"
+                recs.append(rec)
+                continue
+            jax.config.update("jax_enable_x64", ambient)
+            m = None
+            try:
+                m = to_onnx(fn, [spec], enable_double_precision=dp)
+            except BaseException as e:  # noqa
+                rec["error"] = f"{type(e).__name__}: {str(e)[:200]}"
+            rec["flag"] = (ambient, bool(jax.config.jax_enable_x64))
+            jax.config.update("jax_enable_x64", False)
+            if m is None:
+                recs.append(rec)
+                continue
+            rec["term"] = onnx2coq.model_term(m)
+            rec["py_hits"], rec["py_extra"] = py_scan(m, {1, 14} if dp else {11, 15}, float_attrs=dp)
+            rec["in_types"] = [i.type.tensor_type.elem_type for i in m.graph.input]
+            rec["out_types"] = [o.type.tensor_type.elem_type for o in m.graph.output]
+            rec["n_nodes"], rec["n_functions"] = len(m.graph.node), len(m.functions)
+            rec["n_graphs"] = rec["term"].count("(mkOG ")
+            if dp:
+                rec["f32_evidence"] = f32_evidence(m)
+                if dn != "float32":
+                    try:
+                        import onnxruntime as ort
+                        so = ort.SessionOptions()
+                        so.log_severity_level = 4
+                        feed = {m.graph.input[0].name: x}
+                        try:
+                            got = ort.InferenceSession(m.SerializeToString(), so, providers=["CPUExecutionProvider"]).run(None, feed)
+                            rec["evaluator"] = "onnxruntime"
+                        except Exception as e:  # noqa
+                            if "NOT_IMPLEMENTED" not in str(e):
+                                raise
+                            from onnx.reference import ReferenceEvaluator
+                            got = ReferenceEvaluator(m).run(None, feed)
+                            rec["evaluator"] = "onnx-reference"
+                        errs = []
+                        for r, o in zip(ref, got):
+                            o = np.asarray(o)
+                            if o.dtype != np.float64 or o.shape != r.shape:
+                                errs.append(float("inf"))
+                                rec["note"] = f"model output {o.dtype}{o.shape} vs JAX {r.dtype}{r.shape}"
+                                continue
+                            sc = float(np.max(np.abs(r))) or 1.0
+                            errs.append(float(np.max(np.abs(r - o))) / sc)
+                        rec["rel_err"] = max(errs) if errs and len(ref) == len(got) else float("inf")
+                    except Exception as e:  # noqa
+                        rec["eval_error"] = f"{type(e).__name__}: {str(e)[:200]}"
+            recs.append(rec)
+    return recs
 
 
 # =============================================================================== (a) exhaustive policy tie (parent)
@@ -989,13 +1144,13 @@ def coq_verdicts(ctx, name, items):
         t = []
         for k, (_key, term) in enumerate(chunk):
             t.append(f"Definition m_{off + k} : omodel := {term}.")
-            t.append(f"Eval vm_compute in (first_double m_{off + k}, first_single m_{off + k}, table_closed m_{off + k}).")
+            t.append(f"Eval vm_compute in (first_double m_{off + k}, first_single m_{off + k}, table_closed m_{off + k}, no_widened_single_const m_{off + k}).")
         return "\n".join(t) + "\n"
     per_file = min(150, max(40, -(-len(items) // 24)))
     res = common.coq_eval_batches(ctx, name, EVAL_HEADER, items, render, per_file=per_file, jobs=12, timeout=2400)
     verdicts = []
     pat = re.compile(r'=\s*\(\s*(None|Some\s+"((?:[^"]|"")*)"(?:%string)?)\s*,\s*(None|Some\s+"((?:[^"]|"")*)"(?:%string)?)\s*,'
-                     r'\s*(true|false)\s*\)')
+                     r'\s*(true|false)\s*,\s*(true|false)\s*\)')
     bad_files = []
     for fi, (ok, out) in enumerate(res):
         n = len(items[fi * per_file:(fi + 1) * per_file])
@@ -1006,7 +1161,7 @@ def coq_verdicts(ctx, name, items):
             continue
         for f in found:
             verdicts.append((None if f[0] == "None" else f[1].replace('""', '"'),
-                             None if f[2] == "None" else f[3].replace('""', '"'), f[4] == "true"))
+                             None if f[2] == "None" else f[3].replace('""', '"'), f[4] == "true", f[5] == "true"))
     return verdicts, bad_files
 
 
@@ -1119,6 +1274,9 @@ def run(ctx):
         flag_idents = exports.select_indices(total, 4 if quick else 40, ctx.seed + 2)
         combos = [(False, False), (False, True), (True, False), (True, True)]
         flag_async = [pool.apply_async(flag_worker, ((ctx.seed, flag_idents, [c], k == 0),)) for k, c in enumerate(combos)]
+        progs = list(FORM_PROGRAMS[:4]) if quick else list(FORM_PROGRAMS)
+        forms_async = [pool.apply_async(forms_worker, ((dp_, amb_, progs[k::2], ctx.seed),))
+                       for dp_ in (False, True) for amb_ in (False, True) for k in (0, 1)]
         res_async = pool.map_async(export_worker, jobs, chunksize=max(1, min(6, len(jobs) // (procs * 8))))
 
         t0 = time.time()
@@ -1131,6 +1289,7 @@ def run(ctx):
         tm["policy_tie"] = round(time.time() - t0, 1)
 
         results = res_async.get(timeout=6000)
+        forms = [r for fa in forms_async for r in fa.get(timeout=3000)]
         flag_obs = {"to_onnx": [], "managers": [], "nested": []}
         for fa in flag_async:
             o = fa.get(timeout=1500)
@@ -1142,7 +1301,7 @@ def run(ctx):
     doubles = [r for r in results if r["dp"]]
 
     # ---- (b)+(c structural) evaluate the validators inside Coq on every export
-    exported = [r for r in results if r.get("term")]
+    exported = [r for r in results + forms if r.get("term")]
     verdicts, bad_files = coq_verdicts(ctx, "c09_models", [(r["key"], r["term"]) for r in exported])
     ctx.oblige(f"coq:validators-evaluated-on-exports({len(exported)} models)", not bad_files, "tie",
                "" if not bad_files else f"batches failed: {bad_files[:2]}")
@@ -1153,9 +1312,9 @@ def run(ctx):
         r["verdict"] = v
         if v is None:      # the Coq side is broken: fall back to the Python scan so that a concrete failing input is still found
             r["verdict"] = (r["py_hits"][0] if (not r["dp"] and r["py_hits"]) else None,
-                            r["py_hits"][0] if (r["dp"] and r["py_hits"]) else None, True)
+                            r["py_hits"][0] if (r["dp"] and r["py_hits"]) else None, True, True)
             continue
-        fd, fs, closed = v
+        fd, fs, closed, _nw = v
         mine = fs if r["dp"] else fd
         py_first = r["py_hits"][0] if r["py_hits"] else None
         if mine != py_first:
@@ -1219,6 +1378,63 @@ def run(ctx):
     gross = stats.get("differs>1e-5(not this property)", 0)
     illcond = stats.get("explained-by-conditioning", 0)
     unconfirmed = sum(v for k, v in stats.items() if k.startswith("band-but"))
+
+    # ---- (f) every accepted form of an input spec x dtype x flag x ambient x64 (programs with non-float32 constants in the
+    #      top level, loop / cond / scan bodies and an @onnx_function body)
+    form_stats = {"exports": 0, "export_errors": 0, "numerics_compared": 0, "max_rel_err": 0.0, "single_clean": 0,
+                  "double_expected_float64_form": 0, "float32_form_under_dp(out of numeric scope)": 0, "eval_errors": 0}
+    form_errors = []
+    FORM_RTOL = 1e-12
+
+    def form_violate(r, kind, what):
+        ctx.violate(f"spec-form:{r['form']}[{r['dtype']}]:{r['program']}:dp={int(r['dp'])}:x64={int(r['ambient'])}:{kind}",
+                    f"to_onnx(<program {r['program']}>, [<{r['form']} spec, dtype {r['dtype']}>], enable_double_precision={r['dp']}) with ambient "
+                    f"jax_enable_x64={r['ambient']}: {what}",
+                    {"kind": "form", "form": r["form"], "dtype": r["dtype"], "program": r["program"], "dp": r["dp"], "ambient": r["ambient"]})
+    for r in forms:
+        if r.get("flag") and r["flag"][0] != r["flag"][1]:
+            form_violate(r, "flag", f"jax_enable_x64 is {r['flag'][1]} after the call ({r.get('error', 'export succeeded')})")
+        if not r.get("term"):
+            form_stats["export_errors"] += 1
+            form_errors.append((r["key"], r.get("error")))
+            continue
+        form_stats["exports"] += 1
+        v = r.get("verdict") or (None, None, True, True)
+        if not r["dp"]:
+            item = v[0] or (r["py_extra"][0] if r.get("py_extra") else None)
+            bad_out = [t for t in r["out_types"] if t in (11, 15)]
+            if r["dtype"] == "float64":
+                form_stats["double_expected_float64_form"] += 1
+            elif item or bad_out:
+                form_violate(r, "double-in-single", f"the single-precision export contains a double-precision item: {item}; output types {r['out_types']}")
+            else:
+                form_stats["single_clean"] += 1
+            continue
+        if any(t != 11 for t in r["in_types"]):
+            form_violate(r, "input-not-double", f"graph input types {r['in_types']} (DOUBLE = 11 expected)")
+        if r["dtype"] == "float32":
+            form_stats["float32_form_under_dp(out of numeric scope)"] += 1
+            continue
+        # the form asks for float64 (or carries no dtype): the program is float64-only under JAX x64
+        if r.get("f32_evidence") or v[1] or not v[3]:
+            form_violate(r, "single-precision-constant",
+                         f"the double-precision model carries single-precision constants: {(r.get('f32_evidence') or [])[:2]}; first single-precision "
+                         f"item {v[1]}; FLOAT constant widened by Cast: {not v[3]}; rel. deviation from JAX x64: {r.get('rel_err')}")
+            continue
+        if "rel_err" in r:
+            form_stats["numerics_compared"] += 1
+            if not (r["rel_err"] <= FORM_RTOL):
+                form_violate(r, "numerics", f"model ({r.get('evaluator')}) differs from the JAX 64-bit result by relative {r['rel_err']:.3g} "
+                                            f"(tolerance {FORM_RTOL}); {r.get('note', '')}")
+            else:
+                form_stats["max_rel_err"] = max(form_stats["max_rel_err"], r["rel_err"])
+        else:
+            form_stats["eval_errors"] += 1
+            form_errors.append((r["key"], r.get("eval_error")))
+    ctx.oblige(f"tie:spec-forms-exported({form_stats['exports']} exports, {form_stats['numerics_compared']} compared with JAX x64 at rtol {FORM_RTOL})",
+               form_stats["export_errors"] == 0 and form_stats["eval_errors"] == 0, "tie", f"{form_errors[:4]}")
+    ctx.coverage["spec_forms"] = dict(form_stats, forms=sorted({f"{r['form']}[{r['dtype']}]" for r in forms}),
+                                      programs=sorted({r["program"] for r in forms}))
 
     # ---- (d) flag before/after
     flag_bad = []
@@ -1325,6 +1541,16 @@ def replay(path):
         print("category:", cat)
         print(what)
         return 1 if key else 0
+    if kind == "form":
+        recs = forms_worker((r["dp"], r["ambient"], [r["program"]], int(os.environ.get("VERIF_SEED", "0") or 0)))
+        bad = 0
+        for x in recs:
+            if x["form"] == r["form"] and x["dtype"] == r["dtype"]:
+                x.pop("term", None)
+                print(json.dumps(x, indent=1, default=str))
+                bad = int(bool(x.get("f32_evidence")) or x.get("rel_err", 0) > 1e-12 or (x.get("flag") and x["flag"][0] != x["flag"][1])
+                          or (not x["dp"] and x["dtype"] != "float64" and bool(x.get("py_hits"))))
+        return bad
     if kind == "flag":
         obs = flag_worker((0, [], [(False, False), (False, True), (True, False), (True, True)], False))
         bad = [o for o in obs["to_onnx"] if o["after"] != o["prev"]] + [o for o in obs["nested"] if o["after"] != o["prev"]]
